@@ -422,6 +422,132 @@ def run_harness(ck):
     ck.add_samples(smp)
 
 
+SVC = {"spans": 0, "attrs": 1, "prof": 2}
+
+
+def pcase_to_coq(c):
+    evs = c.get("events") or []
+    sizes = c.get("sizes") or [0] * len(evs)
+    end = "PendNil"
+    if evs and evs[-1]["op"] == "err":
+        end = "(PendErr %s)" % b(evs[-1].get("typed"))
+    elif evs and evs[-1]["op"] == "panic":
+        end = "PendPanic"
+    spans, tags = [], []
+    for ev, sz in zip(evs, sizes):
+        if ev["op"] == "span":
+            spans.append("{| se_tid := %d%%N; se_sid := %d%%N; se_keys := %d%%nat; se_vals := %d%%nat; se_bytes := %d%%N |}" % (
+                ev.get("tid", 0), ev.get("sid", 0), ev.get("keys", 0), ev.get("vals", 0), sz))
+        elif ev["op"] == "profile":
+            tags.append("%d%%N" % sz)
+    o = c["obs"]
+    obs = ["(%d, %s)" % (SVC.get(x["svc"], 3), coq_list(["%d%%N" % n for n in (x.get("cols") or [])])) for x in (o.get("batches") or [])]
+    return "{| pc_id := %d; pc_spans := %s; pc_tags := %s; pc_end := %s; pc_outcome := %s; pc_batches := %s |}" % (
+        c["id"], ("Some " + coq_list(spans)) if c["kind"] == "spans" else "None", coq_list(tags), end,
+        OUTCOME.get(o["outcome"], "OOther"), coq_list(obs))
+
+
+PIPE_CORPUS = os.path.join(HERE, "corpus", "C05", "pipe.jsonl")
+
+
+def run_pipe(ck):
+    """the real Build/doParse/doPush/parserDoer/tamePanic/onSpan/onProfile around a scripted decoder, recording insert
+    services; compared with the interpreter of model/IngestPipe.v over the REGENERATED onSpan"""
+    if not ck.go_build("pipefuzz"):
+        ck.obligation("harness pipefuzz builds against the repository (hooks zz_verif_export_c05.go)", False, ck.build_out[-1500:])
+        return
+    runs = []
+    if os.path.exists(PIPE_CORPUS) and not ck.replay:
+        runs.append(("corpus", ["--cases", PIPE_CORPUS]))
+    if ck.replay:
+        obj = json.load(open(ck.replay))
+        if "pipe_case" not in obj:
+            return
+        p = os.path.join(ck.work, "pipe_replay.jsonl")
+        open(p, "w").write(json.dumps(obj["pipe_case"]) + "\n")
+        runs.append(("replay", ["--cases", p]))
+    else:
+        runs.append(("gen", ["--seed", ck.seed, "--n", ck.n(1500, 40000)]))
+    cases = []
+    for tag, args in runs:
+        outp = os.path.join(ck.work, "pipe_%s.jsonl" % tag)
+        rc, out = ck.go_run("pipefuzz", args + ["--out", outp], timeout=3000)
+        lines = load(outp) if os.path.exists(outp) else []
+        got = [c for c in lines if "obs" in c]
+        begun = [c["begin"] for c in lines if "begin" in c]
+        if tag == "corpus":
+            for c in got:
+                c["id"] += 2000000
+        cases += got
+        if rc != 0:
+            # the process died: the case in progress is the failing input
+            done = set(c["id"] for c in got)
+            last = [i for i in begun if i not in done and i + 2000000 not in done]
+            ck.obligation("harness pipefuzz ran to the end (%s)" % tag, False, "exit %d; case in progress: %s; stderr tail: %s" % (rc, last[-1:] or "?", out[-1200:]))
+            if last:
+                # the script of the case in progress (same seed, same PRNG; or the corpus / replay file)
+                gp = os.path.join(ck.work, "pipe_regen.jsonl")
+                ck.go_run("pipefuzz", args + ["--gen-only", "--out", gp], timeout=300)
+                script = [c for c in (load(gp) if os.path.exists(gp) else []) if c.get("id") == last[-1]]
+                ck.violation({"property": "C05", "kind": "the process died while serving a request whose decoder behaved as scripted (un-recovered panic in a goroutine)",
+                              "pipe_case": {k: script[0][k] for k in ("id", "kind", "class", "events")} if script else {"id": last[-1]},
+                              "stderr": out[-2500:], "replay": "bin/check C05 --replay <this file>   (or: pipefuzz --cases <file with the pipe_case line>)"})
+            return
+    if not cases:
+        return
+    txt = ("From Coq Require Import List String Ascii ZArith NArith Bool.\n"
+           "From Qryn Require Import model.IngestRobust model.IngestPipe gen.GenGoroutinesWriter.\n"
+           "Import ListNotations.\nOpen Scope Z_scope.\n"
+           "Definition cases : list pcase := [\n  " + ";\n  ".join(pcase_to_coq(c) for c in cases) + "].\n"
+           "Definition M := Eval vm_compute in pipe_mismatches gen_on_span_cols gen_spans_fields gen_attrs_fields cases.\nPrint M.\n"
+           "Definition V := Eval vm_compute in pipe_spec_violations cases.\nPrint V.\n")
+    rc, out = ck.coq_eval("C05_pipe", txt)
+    flat = " ".join(out.split())
+    m = re.search(r"M = \[(.*?)\]\s*: list Z", flat)
+    v = re.search(r"V = \[(.*?)\]\s*: list Z", flat)
+    if rc != 0 or not m or not v:
+        ck.obligation("pipefuzz cases evaluated inside Coq", False, out[-1500:])
+        return
+    mism = [int(x) for x in re.findall(r"-?\d+", m.group(1))]
+    viol = [int(x) for x in re.findall(r"-?\d+", v.group(1))]
+    byid = {c["id"]: c for c in cases}
+    ck.obligation("pipeline correspondence: on %d scripted-decoder requests the real Build/doParse/doPush/parserDoer/onSpan/onProfile give the status class and "
+                  "exactly the batches (every column length, any order of the push goroutines) that the model's interpreter over the regenerated onSpan predicts" % len(cases),
+                  not mism, "mismatching pipefuzz case ids: %s" % mism[:10])
+    ck.obligation("pipeline oracle: every scripted-decoder request is answered, leaves no goroutine behind, and everything that reaches an insert service is rectangular",
+                  not viol, "violating pipefuzz case ids: %s" % viol[:10])
+
+    def size(c):
+        return len(json.dumps(c["events"]))
+    if viol:
+        w = min((byid[i] for i in viol), key=size)
+        ck.violation({"property": "C05", "kind": "scripted decoder: outcome=%s; a request is not answered / leaves a goroutine / hands a torn batch to an insert service" % w["obs"]["outcome"],
+                      "pipe_case": {k: w[k] for k in ("id", "kind", "class", "events")}, "observed": w["obs"], "others": [i for i in viol if i != w["id"]][:20],
+                      "replay": "bin/check C05 --replay <this file>   (or: pipefuzz --cases <file with the pipe_case line>)"})
+    elif mism:
+        w = min((byid[i] for i in mism), key=size)
+        ck.violation({"property": "C05", "kind": "scripted decoder: model and implementation disagree on the status class or on the batches pushed",
+                      "pipe_case": {k: w[k] for k in ("id", "kind", "class", "events")}, "observed": w["obs"], "others": [i for i in mism if i != w["id"]][:20],
+                      "broken": "correspondence IngestPipe.pipe_expected vs parserDoer/doParse", "replay": "bin/check C05 --replay <this file>"})
+    hist, outc = {}, {}
+    distinct = set()
+    for c in cases:
+        k = "/".join(c["class"].split("/")[:2])
+        hist[k] = hist.get(k, 0) + 1
+        outc[c["obs"]["outcome"]] = outc.get(c["obs"]["outcome"], 0) + 1
+        if c["events"]:
+            distinct.add(hashlib.sha1(json.dumps([c["kind"], c["events"]], sort_keys=True).encode()).hexdigest())
+    ck.coverage["evaluations"] += len(cases)
+    ck.coverage["distinct_nontrivial"] += len(distinct)
+    ck.coverage["rule"] += ("pipe: scripted decoder behind the real pipeline (0-6 spans/profiles with any id widths, keys, values, sizes incl. > 1 MiB flushes; "
+                            "then nil / typed error / plain error / panic); non-trivial = at least one event; distinct by sha1 of the script. ")
+    ck.extra["pipefuzz_distribution"] = {"classes": dict(sorted(hist.items())), "outcomes": dict(sorted(outc.items())),
+                                         "with_flush": sum(1 for c in cases if "/big" in c["class"]),
+                                         "short_vals_panic": sum(1 for c in cases if "short-vals" in c["class"]),
+                                         "batches_observed": sum(len(c["obs"].get("batches") or []) for c in cases)}
+    ck.add_samples([{"class": c["class"], "events": c["events"][:4], "obs": c["obs"]} for c in cases if "short-vals" in c["class"]][:1])
+
+
 def run(ck):
     ck.trusted += [
         "C05: third-party wire decoders (go-faster/jx, google.golang.org/protobuf, google/pprof, golang/snappy, compress/gzip, mime/multipart, "
@@ -436,6 +562,8 @@ def run(ck):
         ck.coq_props()
     else:
         ck.theorems = []
-    run_harness(ck)
+    if not (ck.replay and "pipe_case" in json.load(open(ck.replay))):
+        run_harness(ck)
+    run_pipe(ck)
     for fid, what in ck.known_findings().items():
         pass  # no open finding for C05: defects 8 and 9 are fixed (findings.d/C05.txt)
